@@ -224,11 +224,15 @@ def is_worklist_closure(fn_node):
     loops = [s for s in ast.walk(fn_node) if isinstance(s, ast.While)]
     for lp in loops:
         w = None
-        if isinstance(lp.test, ast.Name):
-            w = lp.test.id
-        elif isinstance(lp.test, ast.UnaryOp) and isinstance(lp.test.op, ast.Not) and isinstance(lp.test.operand, ast.Call) \
+        if isinstance(lp.test, ast.UnaryOp) and isinstance(lp.test.op, ast.Not) and isinstance(lp.test.operand, ast.Call) \
                 and isinstance(lp.test.operand.func, ast.Attribute) and lp.test.operand.func.attr in ("empty", "is_empty"):
             w = ast.unparse(lp.test.operand.func.value)
+        else:
+            # any test that implies "W is not empty": W, bool(W), len(W) > 0, len(W) != 0, 0 < len(W), W != [] ...
+            for cand in sorted({ast.unparse(n) for n in ast.walk(lp.test) if isinstance(n, (ast.Name, ast.Attribute))}):
+                if (min_len(lp.test, True, cand) or 0) >= 1:
+                    w = cand
+                    break
         if w is None:
             continue
         pops = [c for c in ast.walk(lp) if isinstance(c, ast.Call) and isinstance(c.func, ast.Attribute)
@@ -254,13 +258,52 @@ def is_worklist_closure(fn_node):
     return False, "no worklist loop found", None
 
 
+def _membership(test, want_in):
+    """The collection P such that `x not in P` is implied by the test being TRUE (want_in=False) resp. FALSE
+    (want_in=True: the test is an `x in P` test, possibly or-ed with other conditions)."""
+    if isinstance(test, ast.UnaryOp) and isinstance(test.op, ast.Not):
+        return _membership(test.operand, not want_in)
+    if isinstance(test, ast.BoolOp):
+        # true `a and b` makes every conjunct true; false `a or b` makes every disjunct false
+        if isinstance(test.op, ast.And) != want_in:
+            for v in test.values:
+                r = _membership(v, want_in)
+                if r is not None:
+                    return r
+        return None
+    if isinstance(test, ast.Compare) and len(test.ops) == 1:
+        if isinstance(test.ops[0], ast.In if want_in else ast.NotIn):
+            return ast.unparse(test.comparators[0])
+    return None
+
+
+def _exits(block):
+    return bool(block) and isinstance(block[-1], (ast.Continue, ast.Break, ast.Return, ast.Raise))
+
+
 def _enclosing_not_in(loop, node):
-    path = _path_to(loop, node)
-    for anc in path:
+    """The visited collection P such that `node` only runs when its element is not in P.  Guard idioms understood:
+    an enclosing `if x not in P:` (true branch), an enclosing `if x in P: ... else:` (else branch), and an earlier
+    sibling `if x in P: continue / break / return` in any enclosing block of the loop."""
+    path = _path_to(loop, node) + [node]
+    for k, anc in enumerate(path[:-1]):
+        child = path[k + 1]
         if isinstance(anc, ast.If):
-            for sub in ast.walk(anc.test):
-                if isinstance(sub, ast.Compare) and len(sub.ops) == 1 and isinstance(sub.ops[0], ast.NotIn):
-                    return ast.unparse(sub.comparators[0])
+            in_body = any(child is s for s in anc.body)
+            p = _membership(anc.test, want_in=not in_body)      # body: need `not in`; orelse: need `in`
+            if p is not None:
+                return p
+        for field in ("body", "orelse", "finalbody"):
+            block = getattr(anc, field, None)
+            if not isinstance(block, list) or not any(child is s for s in block):
+                continue
+            for s in block:
+                if s is child:
+                    break
+                if isinstance(s, ast.If) and not s.orelse and _exits(s.body):
+                    p = _membership(s.test, want_in=True)
+                    if p is not None:
+                        return p
     return None
 
 
@@ -412,3 +455,57 @@ def innermost_loop(fn_node, node):
             if best is None or any(n is lp for n in ast.walk(best)):
                 best = lp
     return best
+
+
+# ------------------------------------------------------------------------------ emptiness / length guards
+def _is_seq(e, base_txt):
+    return ast.unparse(e) == base_txt
+
+
+def _is_len(e, base_txt):
+    return isinstance(e, ast.Call) and isinstance(e.func, ast.Name) and e.func.id == "len" and len(e.args) == 1 \
+        and _is_seq(e.args[0], base_txt)
+
+
+def min_len(e, pol, base_txt):
+    """Lower bound on len(seq) implied by `e` evaluating to `pol` (None = nothing implied)."""
+    if isinstance(e, ast.UnaryOp) and isinstance(e.op, ast.Not):
+        return min_len(e.operand, not pol, base_txt)
+    if isinstance(e, ast.BoolOp):
+        subs = [min_len(v, pol, base_txt) for v in e.values]
+        conj = isinstance(e.op, ast.And) == pol      # `a and b` true / `a or b` false: every operand has that value
+        if conj:
+            known = [x for x in subs if x is not None]
+            return max(known) if known else None
+        return None if any(x is None for x in subs) else min(subs)
+    if _is_seq(e, base_txt) or _is_len(e, base_txt) or (
+            isinstance(e, ast.Call) and isinstance(e.func, ast.Name) and e.func.id == "bool" and len(e.args) == 1
+            and (_is_seq(e.args[0], base_txt) or _is_len(e.args[0], base_txt))):
+        return 1 if pol else None
+    if isinstance(e, ast.Compare) and len(e.ops) == 1:
+        l, op, r = e.left, e.ops[0], e.comparators[0]
+        empty = lambda x: isinstance(x, (ast.List, ast.Tuple)) and not x.elts   # noqa: E731
+        if (_is_seq(l, base_txt) and empty(r)) or (_is_seq(r, base_txt) and empty(l)):
+            if isinstance(op, ast.NotEq):
+                return 1 if pol else None
+            if isinstance(op, ast.Eq):
+                return None if pol else 1
+            return None
+        flip = {ast.Lt: ast.Gt, ast.Gt: ast.Lt, ast.LtE: ast.GtE, ast.GtE: ast.LtE, ast.Eq: ast.Eq, ast.NotEq: ast.NotEq}
+        if _is_len(r, base_txt) and isinstance(l, ast.Constant):
+            l, r, op = r, l, flip.get(type(op), type(None))()
+        if _is_len(l, base_txt) and isinstance(r, ast.Constant) and isinstance(r.value, int):
+            n = r.value
+            kind = type(op)
+            if not pol:
+                kind = {ast.Lt: ast.GtE, ast.GtE: ast.Lt, ast.Gt: ast.LtE, ast.LtE: ast.Gt, ast.Eq: ast.NotEq,
+                        ast.NotEq: ast.Eq}.get(kind)
+            if kind is ast.Gt:
+                return n + 1
+            if kind is ast.GtE:
+                return n
+            if kind is ast.Eq:
+                return n
+            if kind is ast.NotEq and n == 0:
+                return 1
+    return None
